@@ -349,10 +349,7 @@ void wwSetBits(word a[], size_t pos, size_t width, register word val)
 	ASSERT(width <= B_PER_W);
 	// маска
 	if (width < B_PER_W)
-	{
-		mask <<= B_PER_W - width;
-		mask >>= B_PER_W - width;
-	}
+		mask = WORD_BIT_POS(width) - WORD_1;
 	// биты a[n]
 	pos %= B_PER_W;
 	a[n] &= ~(mask << pos);
